@@ -68,6 +68,9 @@ def modelled : List String := [
   "ffg.NewElementFromUint64",
   "ffg.init@element.go",
   "ffg.init@element.go#2",
+  "tree.<layout>@ff",
+  "tree.<layout>@ffg",
+  "tree.<layout>@root",
   "ff.<asm>@element_mul_adx_amd64.s",
   "ff.<asm>@element_mul_amd64.s",
   "ff.<asm>@element_ops_amd64.s",
@@ -92,6 +95,6 @@ theorem source_pinned : modelled.all (same I3.Gen.fingerprints) = true := by dec
 theorem function_set_pinned : (["ff.", "ffg."] : List String).all (sameKeys I3.Gen.fingerprints) = true := by
   decide +kernel
 
-theorem modelled_nonempty : 76 = modelled.length := by decide
+theorem modelled_nonempty : 79 = modelled.length := by decide
 
 end I3.Props.C11
